@@ -220,8 +220,41 @@ static uint8_t edge_byte(void) { uint64_t r = l64(); return (r & 3) ? EDGE8[(r >
 
 static int is_float_fmt(uint32_t f) { return f == PIXMAN_rgba_float || f == PIXMAN_rgb_float; }
 
+/* modes 7/8: runs of whole pixels; every run boundary phase relative to 4-, 8-, 16-pixel groups occurs because the
+ * run lengths and the first run are random */
+static void fill_runs(uint8_t *p, size_t len, uint32_t fmt, int mode)
+{
+    int bpp = PIXMAN_FORMAT_BPP(fmt), unit = (bpp == 32) ? 4 : (bpp == 16) ? 2 : 1;
+    int t = PIXMAN_FORMAT_TYPE(fmt), apos = (t == PIXMAN_TYPE_ARGB || t == PIXMAN_TYPE_ABGR) ? 3 : 0;
+    static const int MAXL[] = { 3, 5, 9, 17, 40 };
+    int maxl = MAXL[l64() % 5], nkinds = mode == 7 ? 3 : 6;
+    size_t i = 0;
+    while (i < len) {
+        int run = 1 + (int)(l64() % (uint64_t)maxl), kind = (int)(l64() % (uint64_t)nkinds), j, k;
+        uint8_t cst[4]; int constant = (l64() & 1) != 0;
+        for (k = 0; k < 4; k++) cst[k] = (uint8_t)(l64() >> 16);
+        if (unit == 1 && mode == 7 && kind == 2) kind = (int)(l64() & 1);
+        for (j = 0; j < run && i < len; j++, i += (size_t)unit) {
+            uint8_t px[4];
+            for (k = 0; k < 4; k++) px[k] = constant ? cst[k] : (uint8_t)(l64() >> 24);
+            switch (kind) {
+            case 0: memset(px, 0, 4); break;                                   /* transparent / zero coverage */
+            case 1: memset(px, 0xff, 4); break;                                /* all ones / full coverage */
+            case 2: if (unit == 4) px[apos] = 0xff; break;                     /* opaque, random colour (other sizes: random) */
+            case 3: if (unit == 4) px[apos] = (l64() & 1) ? 0x01 : 0xfe; else { static const uint8_t E[] = { 0x01, 0xfe, 0x7f, 0x80 }; memset(px, E[cst[0] & 3], 4); } break;
+            case 4: if (unit == 4) { px[apos] = 0; } else memset(px, (cst[1] & 1) ? 0x01 : 0xfe, 4); break;   /* alpha 0, colour kept (non-premultiplied) */
+            default: break;                                                    /* translucent random */
+            }
+            for (k = 0; k < unit && i + (size_t)k < len; k++) p[i + (size_t)k] = px[k];
+        }
+    }
+}
+
 /* pixmode: 0 random, 1 edge-biased bytes, 2 alpha forced opaque where the format is 32bpp, 3 premultiplied-looking
- * (32bpp argb-like: colour <= alpha), 4 all zero, 5 all ones, 6 few distinct values (long runs) */
+ * (32bpp argb-like: colour <= alpha), 4 all zero, 5 all ones, 6 few distinct values (long runs),
+ * 7 pixel runs of random length and phase drawn from {transparent/zero, opaque/all-ones} only (a8: 00/ff; 32bpp:
+ * 00000000, ffffffff, alpha ff + random colour), 8 the same plus edge values (a8: 01 fe 7f 80; 32bpp: alpha 01/fe,
+ * translucent random) -- these drive the whole-vector "all opaque / all zero" shortcuts of the SIMD loops */
 static void fill_buffer(uint8_t *p, size_t len, uint32_t fmt, uint64_t seed, int mode)
 {
     size_t i;
@@ -238,6 +271,7 @@ static void fill_buffer(uint8_t *p, size_t len, uint32_t fmt, uint64_t seed, int
     switch (mode) {
     case 4: memset(p, 0, len); return;
     case 5: memset(p, 0xff, len); return;
+    case 7: case 8: fill_runs(p, len, fmt, mode); return;
     case 0: for (i = 0; i < len; i++) p[i] = (uint8_t)(l64() >> 24); break;
     case 6: { uint8_t v[4][4]; int j, k; for (j = 0; j < 4; j++) for (k = 0; k < 4; k++) v[j][k] = edge_byte();
               for (i = 0; i < len; i += 4) { int j2 = (int)((l64() >> 20) % 4); if ((l64() & 7) != 0 && i) j2 = -1;
@@ -481,7 +515,7 @@ static void init_bits(img_t *im, uint32_t fmt, int w, int h)
     int neg;
     memset(im, 0, sizeof *im);
     im->kind = 'B'; im->fmt = fmt; im->w = w < 1 ? 1 : w; im->h = h < 1 ? 1 : h; im->stride = stride_for(fmt, im->w, &neg);
-    im->align = 4 * rng_n(4); im->seed = rng_u64() >> 1; im->pixmode = rng_chance(45) ? 1 : rng_chance(40) ? 0 : rng_range(2, 6);
+    im->align = 4 * rng_n(4); im->seed = rng_u64() >> 1; im->pixmode = rng_chance(38) ? 1 : rng_chance(30) ? 0 : rng_chance(45) ? rng_range(7, 8) : rng_range(2, 6);
     im->filter = PIXMAN_FILTER_NEAREST;
 }
 static void init_solid(img_t *im, int opaque)
@@ -581,7 +615,7 @@ static void synth_image(img_t *im, uint32_t fmt, uint32_t flags, int ox, int oy,
             if (!has_t) { tx = ty = 0; }
             if (iw == 1 && ih == 1 && rep != PIXMAN_REPEAT_NONE) iw = 2;
         }
-        if (iw > 400) iw = 400; if (ih > 200) ih = 200;
+        if (iw > 800) iw = 800; if (ih > 800) ih = 800;
         init_bits(im, fmt, iw, ih);
         if (has_t) { t[2] = (int32_t)tx; t[5] = (int32_t)ty; }
     }
@@ -598,6 +632,26 @@ static void synth_image(img_t *im, uint32_t fmt, uint32_t flags, int ox, int oy,
 }
 
 static int sweep_w(int v) { return 1 + (v % 35); }
+/* second width class: rows long enough for several whole cache-line tiles / many vectors after the unaligned head
+ * (tiled rotate/blt loops, 4- and 8-pixel vector bodies): multiples of the tile and vector sizes +- 1 */
+static int wide_w(uint32_t dfmt)
+{
+    static const int W32[] = { 48, 49, 63, 64, 65, 79, 80, 81, 96, 127, 128, 129, 160 };
+    static const int W16[] = { 96, 97, 127, 128, 129, 160, 161, 191, 192, 193, 256 };
+    static const int W8[] = { 192, 193, 208, 224, 255, 256, 257, 288, 300 };
+    int bpp = PIXMAN_FORMAT_BPP(dfmt);
+    if (bpp == 16) return W16[rng_n(11)];
+    if (bpp <= 8) return W8[rng_n(9)];
+    return W32[rng_n(13)];
+}
+/* correlated structured patterns: coverage runs in the mask together with opaque / transparent runs in the source */
+static void structured_combo(req_t *r)
+{
+    int c = rng_n(100);
+    if (c < 22) { if (r->m.kind == 'B') r->m.pixmode = 7; if (r->s.kind == 'B') r->s.pixmode = rng_chance(50) ? 2 : 7; }
+    else if (c < 32) { if (r->m.kind == 'B') r->m.pixmode = 8; if (r->s.kind == 'B') r->s.pixmode = rng_chance(50) ? 7 : 8; }
+    else if (c < 38) { if (r->s.kind == 'B') r->s.pixmode = 7; if (r->d.kind == 'B' && rng_chance(50)) r->d.pixmode = 7; }
+}
 
 static void synth_dest(img_t *d, uint32_t fmt, int dx, int dy, int w, int h)
 {
@@ -634,14 +688,15 @@ static void pixbuf_pair(req_t *r, uint32_t srcfmt, int ca)
     if (rng_chance(8)) r->m.repeat = r->s.repeat ? 0 : PIXMAN_REPEAT_NORMAL;   /* different repeat: idiom not recognised */
 }
 
-static void gen_for_fast_path(FILE *f, int k, int idx, const pixman_fast_path_t *e, int v)
+static void gen_for_fast_path(FILE *f, int k, int idx, const pixman_fast_path_t *e, int v, int wide)
 {
+    uint32_t dfmt = e->dest_format == PIXMAN_any ? pick_fmt(0) : e->dest_format;
     req_t r; memset(&r, 0, sizeof r);
     r.kind = 'C'; snprintf(r.tag, sizeof r.tag, "fp:%s:%d", lvl_name[k], idx);
     r.op = e->op == PIXMAN_OP_any ? OPS[rng_n(rng_chance(70) ? 14 : NOPS)] : (int)e->op;
-    r.w = sweep_w(v + idx); r.h = 1 + (v + rng_n(2)) % 3;
+    r.w = wide ? wide_w(dfmt) : sweep_w(v + idx); r.h = 1 + (v + rng_n(2)) % 3;
     r.dx = rng_n(16); r.dy = rng_n(3); r.sx = rng_n(16); r.sy = rng_n(3); r.mx = rng_n(16); r.my = rng_n(3);
-    synth_dest(&r.d, e->dest_format, r.dx, r.dy, r.w, r.h);
+    synth_dest(&r.d, dfmt, r.dx, r.dy, r.w, r.h);
     if (e->src_format == PIXMAN_pixbuf || e->src_format == PIXMAN_rpixbuf) {
         pixbuf_pair(&r, e->src_format == PIXMAN_pixbuf ? PIXMAN_x8b8g8r8 : PIXMAN_x8r8g8b8, (e->mask_flags & FAST_PATH_COMPONENT_ALPHA) != 0);
     } else {
@@ -652,15 +707,16 @@ static void gen_for_fast_path(FILE *f, int k, int idx, const pixman_fast_path_t 
     if (rng_chance(12)) {       /* destination clip: one or two boxes inside the rectangle */
         r.d.nclip = 1; r.d.clip[0][0] = r.dx + rng_n(r.w); r.d.clip[0][1] = r.dy; r.d.clip[0][2] = r.d.clip[0][0] + 1 + rng_n(r.w); r.d.clip[0][3] = r.dy + r.h;
     }
+    structured_combo(&r);
     put_req(f, &r);
 }
 
-static void gen_for_iter(FILE *f, int k, int idx, const pixman_iter_info_t *e, int v)
+static void gen_for_iter(FILE *f, int k, int idx, const pixman_iter_info_t *e, int v, int wide)
 {
     req_t r; int dest_role = (e->iter_flags & ITER_DEST) && !(e->iter_flags & ITER_SRC);
     memset(&r, 0, sizeof r);
     r.kind = 'C'; snprintf(r.tag, sizeof r.tag, "it:%s:%d", lvl_name[k], idx);
-    r.w = sweep_w(v + idx); r.h = 1 + (v + rng_n(2)) % 3;
+    r.w = wide ? wide_w(rng_chance(50) ? PIXMAN_a8r8g8b8 : e->format) : sweep_w(v + idx); r.h = 1 + (v + rng_n(2)) % 3;
     r.dx = rng_n(16); r.dy = rng_n(3); r.sx = rng_n(16); r.sy = rng_n(3); r.mx = rng_n(16); r.my = rng_n(3);
     /* operators for which few whole-op paths exist, so that the iterators run in most configurations */
     { static const int O[] = { 3, 12, 4, 5, 6, 7, 8, 9, 10, 11, 0x30, 0x31, 0x3a, 13, 1 }; r.op = O[rng_n(15)]; }
@@ -679,6 +735,7 @@ static void gen_for_iter(FILE *f, int k, int idx, const pixman_iter_info_t *e, i
     }
     if (rng_chance(35)) synth_image(&r.m, rng_chance(40) ? PIXMAN_solid : rng_chance(50) ? PIXMAN_a8 : PIXMAN_a8r8g8b8, FAST_PATH_ID_TRANSFORM | FAST_PATH_SAMPLES_COVER_CLIP_NEAREST, r.mx, r.my, r.w, r.h, 1);
     else { r.m.kind = 'N'; }
+    structured_combo(&r);
     put_req(f, &r);
 }
 
@@ -688,9 +745,10 @@ static void gen_random(FILE *f, int n)
     memset(&r, 0, sizeof r);
     r.kind = 'C'; snprintf(r.tag, sizeof r.tag, "rnd:%d", n);
     r.op = OPS[rng_n(rng_chance(60) ? 14 : NOPS)];
-    r.w = rng_chance(80) ? rng_range(1, 35) : rng_range(1, 70); r.h = rng_range(1, 4);
+    uint32_t rdfmt = pick_fmt(1);
+    r.w = rng_chance(75) ? rng_range(1, 35) : rng_chance(60) ? rng_range(1, 70) : wide_w(rdfmt); r.h = rng_range(1, 4);
     r.dx = rng_n(16); r.dy = rng_n(3); r.sx = rng_range(-3, 16); r.sy = rng_range(-2, 3); r.mx = rng_range(-3, 16); r.my = rng_range(-2, 3);
-    synth_dest(&r.d, pick_fmt(1), r.dx, r.dy, r.w, r.h);
+    synth_dest(&r.d, rdfmt, r.dx, r.dy, r.w, r.h);
     if (r.d.fmt == PIXMAN_rgba_float || r.d.fmt == PIXMAN_rgb_float) r.d.stride = (r.d.stride < 0 ? -1 : 1) * (r.d.w * 16 + 16 * rng_n(2));
     /* source */
     fl = 0;
@@ -725,6 +783,7 @@ static void gen_random(FILE *f, int n)
         for (i = 0; i < r.d.nclip; i++) { int x = rng_range(-2, r.d.w), y = rng_range(-1, r.d.h); r.d.clip[i][0] = x; r.d.clip[i][1] = y; r.d.clip[i][2] = x + rng_range(1, 20); r.d.clip[i][3] = y + rng_range(1, 3); }
     }
     if (rng_chance(4) && r.d.kind == 'B') r.d.dither = rng_range(1, 5);
+    structured_combo(&r);
     put_req(f, &r);
 }
 
@@ -732,7 +791,7 @@ static void gen_bltfill(FILE *f, int n)
 {
     static const uint32_t BF[] = { PIXMAN_a8r8g8b8, PIXMAN_r5g6b5, PIXMAN_a8, PIXMAN_a1, PIXMAN_a4, PIXMAN_r8g8b8 };
     req_t r; memset(&r, 0, sizeof r);
-    r.w = rng_chance(70) ? rng_range(1, 35) : rng_range(1, 130); r.h = rng_range(1, 4);
+    r.w = rng_chance(65) ? rng_range(1, 35) : rng_chance(60) ? rng_range(1, 130) : rng_range(130, 300); r.h = rng_range(1, 4);
     r.dx = rng_n(20); r.dy = rng_n(3); r.sx = rng_n(20); r.sy = rng_n(3);
     if (n & 1) {
         uint32_t sf = BF[rng_n(rng_chance(80) ? 3 : 6)], df = rng_chance(85) ? sf : BF[rng_n(6)];
@@ -754,8 +813,8 @@ static int do_gen(uint64_t seed, int per_entry, int nrandom, int nbf, const char
     discover_chain();
     rng_seed(seed);
     for (k = 0; k < nlev; k++) {
-        for (i = 0; i < nfp[k]; i++) for (v = 0; v < per_entry; v++) gen_for_fast_path(f, k, i, &orig_fp[k][i], v + (int)(seed % 35) * 3);
-        for (i = 0; i < nit[k]; i++) for (v = 0; v < per_entry; v++) gen_for_iter(f, k, i, &orig_it[k][i], v + (int)(seed % 35) * 3);
+        for (i = 0; i < nfp[k]; i++) for (v = 0; v < per_entry; v++) gen_for_fast_path(f, k, i, &orig_fp[k][i], v + (int)(seed % 35) * 3, v % 6 == 5);
+        for (i = 0; i < nit[k]; i++) for (v = 0; v < per_entry; v++) gen_for_iter(f, k, i, &orig_it[k][i], v + (int)(seed % 35) * 3, v % 6 == 5);
     }
     for (i = 0; i < nrandom; i++) gen_random(f, i);
     for (i = 0; i < nbf; i++) gen_bltfill(f, i);
